@@ -2,6 +2,7 @@
 """Regenerates the `fixed` list of known_findings.json from /repo's "fix:" commits."""
 import json, subprocess
 PROP = {
+"is_recursive raised KeyError":"C20",
 "an invalid or missing aliased InitVar":"C10,C11",
 "cyclic or self-referencing order":"C16",
 "GraphQL object flattening an interface":"C19",
